@@ -123,7 +123,7 @@ def wellformed_tg_snap(s):
     for t in s["tiers"]:
         if not snap.wellformed_tier_snap(t) or t["min"] < s["min"] or t["max"] > s["max"]:
             return False
-        if not isinstance(t["name"], str) or t["name"] != t["name"].strip() or "\n" in t["name"] or "\r" in t["name"] or t["name"] == "":
+        if not isinstance(t["name"], str) or "\n" in t["name"] or "\r" in t["name"] or t["name"] == "":
             return False
         for e in t["entries"]:
             if "\r" in e[-1]:
